@@ -15,7 +15,7 @@ func init() {
 		Explanation: "Decides the structural clauses behind 'Gateway API routes: exact split, narrow matches, clean restore': (R13.1) in the gateway provider an index obtained from ranging over a slice X indexes only X (range-index agreement: a partitioned list is never read through the index of another partition); " +
 			"(R13.2) the weights written are generateCanaryWeight(w) = (100-w, w), result #0 on the stable and #1 on the canary backendRef; (R13.3) the backendRef helpers rebuild the list by copying every other entry unchanged, rules without a stable backendRef are appended untouched, and the lookup helpers return fresh copies (no pointer into, and no in-place filtering of, the slices of the object that was read — otherwise the desired/current comparison is vacuous); " +
 			"(R13.4) Finalise passes the -1 sentinel, under it a rule is dropped only if it referenced the canary Service and is left without backends; (R13.5) a match step keeps every user rule: a rule is skipped only if it references the canary but not the stable Service; (R13.6) a canary rule is emitted only with a non-empty match list, and a match-less rule is treated as one empty match.",
-		NotDecided: "match semantics beyond the index/partition agreement (that header and query conditions are ANDed as documented); numeric equality for all w; behaviour of the gateway implementation.",
+		NotDecided:  "match semantics beyond the index/partition agreement (that header and query conditions are ANDed as documented); numeric equality for all w; behaviour of the gateway implementation.",
 		Assumptions: []string{"range loops are recognised by their SSA shape (index phi compared with len(X))"},
 	})
 }
